@@ -325,7 +325,7 @@ def main(tier):
     )
     stage.activate()
     hs = histories(tier)
-    for part in core.pmap(run_bound0, hs, chunksize=1):
+    for part in core.pmap(run_bound0, hs, chunksize=1, isolate=False):
         chk.merge(part)
     # bound 1
     jobs = []
@@ -338,7 +338,7 @@ def main(tier):
                 jobs.append((cfgd, ops, label, pts[k:k + 4], adv))
     rot = core.seed() % len(jobs)
     jobs = jobs[rot:] + jobs[:rot]
-    for part in core.pmap(run_bound1, jobs, chunksize=1):
+    for part in core.pmap(run_bound1, jobs, chunksize=1, isolate=False):
         chk.merge(part)
     chk.extra["deviation_bound_completed"] = 1
     return chk.finish()
